@@ -137,7 +137,7 @@ def run(ctx):
                                 "zero_checked_bytes": st["zero_checked_bytes"], "live_at_exit": st["live_end"],
                                 "trace_events": res["modes"]["poison"]["trace_events"],
                                 "output_same_poison": res["modes"]["poison"]["out_same"],
-                                "output_same_quarantine": res["modes"]["quarantine"]["out_same"]})
+                                "output_same_quarantine": res["modes"].get("quarantine", {}).get("out_same")})
     compiled = dist.get("status:ok", 0)
     if compiled == 0:
         raise vlib.InfraError("no workload program could be compiled and run: %s" % ctx.notes[:3])
